@@ -34,6 +34,7 @@ void generate(sim::Rng &r, uint64_t seed, const std::string &tier, sim::Plan &p)
   p.cfg["max"] = maxn;
   p.cfg["backend"] = r.below(2);
   p.cfg["final_wait"] = r.chance(600) ? 1 : 0;
+  p.cfg["stop_first"] = r.chance(300) ? 1 : 0;   // stop the loop while tasks may still be running; they complete while no loop runs; then run it again
   unsigned fmask = 0;
   if (r.chance(500)) fmask |= sim::F_SPURIOUS;
   if (r.chance(500)) fmask |= sim::F_COND_ANY;
@@ -91,6 +92,7 @@ struct Ctx {
   std::vector<TaskRec> tasks;
   std::vector<TimerEvent *> timers;
   int idle_polls = 0;
+  bool stopped_once = false;
   bool alive() const { return kind == 0 ? pool != nullptr : wt != nullptr; }
 
   void after(long delay_ms, std::function<void()> f) {
@@ -132,6 +134,7 @@ struct Ctx {
 
   void step(size_t i) {
     if (i >= plan->ops.size()) {
+      if (plan->get("stop_first") && !stopped_once) { stopped_once = true; loop->exitLoop(); return; }
       if (plan->get("final_wait")) wait_idle([this] { finale(); });
       else finale();
       return;
@@ -217,6 +220,8 @@ struct Ctx {
 };
 
 // ------------------------------------------------------------------ oracle
+Ctx ctx;
+
 struct TInfo {
   uint64_t sub_inv = 0, sub_ret = 0, start = 0, end = 0, cb = 0;
   int starts = 0, cbs = 0, start_tid = -1, cb_tid = -1;
@@ -357,7 +362,7 @@ void execute(const sim::Plan &plan) {
     if (sim::cell_get(C_IN_CLEANUP)) sim::violation("C05/cleanup-never-returns", "step cap reached while cleanup() is running");
     else sim::violation("C05/livelock", "step cap reached");
   });
-  static Ctx ctx;
+  ctx = Ctx();
   ctx.plan = &plan;
   ctx.kind = plan.get("kind");
   ctx.loop = Loop::New(plan.get("backend") ? "select" : "epoll");
@@ -372,6 +377,12 @@ void execute(const sim::Plan &plan) {
   }
   ctx.loop->runNext([] { ctx.step(0); }, "c05.start");
   ctx.loop->runLoop(Loop::Mode::kForever);
+  if (ctx.stopped_once) {
+    // no loop is running now: workers finish their tasks and post their completion callbacks meanwhile
+    sim::sleep_ns(30 * 1000000);
+    ctx.loop->runNext([] { ctx.step(ctx.plan->ops.size()); }, "c05.resume");
+    ctx.loop->runLoop(Loop::Mode::kForever);
+  }
   for (TimerEvent *t : ctx.timers) delete t;
   sim::cell_set(C_IN_CLEANUP, 1);
   delete ctx.pool; ctx.pool = nullptr;
